@@ -8,7 +8,8 @@ DECIDED = ("between caller and fake only the emitted entry and trampoline run; f
            "the scratch register (R13.1: no stack effect, no call, no flags consumer, no memory store); the registers written are within the "
            "target ABI's caller-saved, non-argument, non-result set — x86-64 {rax,r10,r11}, AArch64 {x9..x17}, ARM {r12} (R13.2); load and "
            "branch use the same register (R13.3). The boolean stub, which replaces the callee rather than redirecting to one, may write "
-           "the result register.")
+           "the result register. R13.4: the sequences transfer to the trampoline / the replacement for every address pair (the decision of "
+           "C01 R1.1 / C15 / C16: arguments cannot arrive unchanged at a fake the jump does not reach).")
 NOT_DECIDED = "nothing beyond the processor executing the decoded instructions as tabulated"
 
 SCRATCH = {"x86_64": {"rax", "r10", "r11"}, "aarch64": {"x%d" % i for i in range(9, 18)}, "arm": {"r12"}}
@@ -64,3 +65,6 @@ def run(ck, models, tier):
                 ck.ob("R13.3", "%s/%s%s/%s/load-branch-register" % (tm.arch, rn, cname, r.role), tm.target, reg in wr,
                       "branch through %s; registers loaded by the sequence: %s" % (reg, sorted(wr)), where(r.ev))
         ck.floor("R13.1", "decoded-sequences", n, 12 if tm.arch != "arm" else 18, tm.target)
+        # R13.4 the arguments get to the fake at all: entry -> trampoline -> replacement (shared decision, see patches.reach_obligations)
+        k = patches.reach_obligations(ck, "R13.4", tm, lambda r: True, "call-reaches-fake")
+        ck.floor("R13.4", "patches-with-decided-destination", k, 12 if tm.arch != "arm" else 18, tm.target)
